@@ -34,7 +34,8 @@ Definition apply_act (a : dact) (s : sys) (c : nat) (v : chan) (f : frame) : sys
   | HBasicCancel | HDelTag => upd s c (with_tags v (del_tag (f_str f) (c_tags v)))
   | HAddTag => upd s c (with_tags v (if mem_tag (f_str f) (c_tags v) then c_tags v
                                       else c_tags v ++ [f_str f]))
-  | HReturn => upd s c (with_errs v (c_errs v ++ [{| e_kind := EMsg; e_code := Some (f_num f) |}]))
+  | HReturn => upd s c (with_ret (with_errs v (c_errs v ++ [{| e_kind := EMsg; e_code := Some (f_num f) |}]))
+                                 (Some (-1)))
   | HClose => close_channel s c v (f_num f)
   | HFlow => s
   end.
